@@ -16,6 +16,7 @@ import (
 	"net/url"
 	"runtime"
 	"runtime/debug"
+	"slices"
 	"strings"
 
 	"connectrpc.com/connect"
@@ -94,7 +95,16 @@ func envelope(flags byte, payload []byte) []byte {
 // valueMode "limits" draws message sizes at and around the buffer limit, and highly compressible ones.
 var valueMode = ""
 
+// genMaxValue, when positive, caps the size of message values.
+var genMaxValue int
+
 func randValue(rng *rand.Rand, maxMsg int) []byte {
+	if genMaxValue > 0 {
+		maxMsg = min(maxMsg, genMaxValue)
+		if rng.IntN(3) == 0 {
+			return nil // empty messages are the corner case of every framing layer
+		}
+	}
 	if valueMode == "limits" {
 		switch rng.IntN(7) {
 		case 0:
@@ -193,7 +203,7 @@ func buildRequest(rng *rand.Rand, sc *Scenario, m methodInfo, cp clientPlan, hos
 	add := func(k, v string) { sc.Req.Headers = append(sc.Req.Headers, []string{hs(k), hs(v)}) }
 	nmsg := 1
 	if m.clientStr {
-		nmsg = rng.IntN(4)
+		nmsg = rng.IntN(genMaxMsgs)
 	} else if rng.IntN(12) == 0 {
 		nmsg = pick(rng, []int{0, 2})
 		sc.gen.reqClean = false
@@ -484,7 +494,9 @@ func buildResponse(rng *rand.Rand, sc *Scenario, m methodInfo, ss serverSide, e 
 		return v
 	}
 	// request consumption pattern
-	switch rng.IntN(4) {
+	switch rng.IntN(5) {
+	case 4:
+		script = append(script, []string{"readfix", fmt.Sprint(1 + rng.IntN(12)), fmt.Sprint(1 + rng.IntN(16))}, []string{"readall", "64"})
 	case 0:
 		script = append(script, []string{"readall", fmt.Sprint(1 + rng.IntN(8))})
 	case 1:
@@ -518,7 +530,7 @@ func buildResponse(rng *rand.Rand, sc *Scenario, m methodInfo, ss serverSide, e 
 	addhdr := func(k, v string) { script = append(script, []string{"addhdr", hs(k), hs(v)}) }
 	nmsg := 1
 	if m.serverStr {
-		nmsg = rng.IntN(4)
+		nmsg = rng.IntN(genMaxMsgs)
 	} else if rng.IntN(12) == 0 {
 		nmsg = pick(rng, []int{0, 2})
 		sc.gen.respClean = false
@@ -938,6 +950,12 @@ func streamE2E(e *Emitter, rng *rand.Rand, tier string) {
 }
 
 // genScenario draws one whole-request scenario (configuration, request, backend script).
+// genMaxMsgs bounds (exclusively) the number of messages of a streaming side.
+var genMaxMsgs = 4
+
+// genMethods, when set, restricts the methods scenarios are drawn for.
+var genMethods []string
+
 // genHostileDie: one request in genHostileDie is hostile (the history stream lowers it).
 var genHostileDie = 5
 
@@ -959,6 +977,11 @@ func genScenarioWith(e *Emitter, rng *rand.Rand, override func(*Scenario)) *Scen
 		override(sc)
 	}
 	m := pick(rng, methods)
+	if len(genMethods) > 0 {
+		for !slices.Contains(genMethods, m.name) {
+			m = pick(rng, methods)
+		}
+	}
 	hostile := rng.IntN(genHostileDie) == 0 // 20% of the requests may be invalid in their protocol
 	cp := clientPlan{codec: pick(rng, []string{"raw", "hexa", "rev"}), comp: pick(rng, []string{"", "", "Z", "Y", "identity"})}
 	if hostile {
